@@ -10,48 +10,39 @@ READERS = {"len", "bool"}
 
 
 def mutators(ck, agg, qf):
-    """R12.1: every use of the storage list in the package is one of: append (enqueue, move ctor), pop(0) (dequeue),
-    [0] (peek), len(), iteration, truthiness, the initial assignment"""
+    """R12.1 (ownership half): the storage list is changed only by methods of the queue classes, and those are reachable only through the
+    queue's own API (enqueue, dequeue, the constructors) - a call-graph rule; *how* each API function changes the list is decided by the
+    abstract runs of deq_peek / enqueue_rules / move_ctor, so `pop(0)` vs `del q[0]` vs a helper does not matter"""
+    from ..model import reachable
+    from .common import attr_mutations, class_funcs
     n = 0
     S = net.structs(ck.prog)
-    for f in ck.prog.all_funcs():
-        parents = {}
-        for node in ast.walk(f.node):
-            for ch in ast.iter_child_nodes(node):
-                parents[id(ch)] = node
-        for node in ast.walk(f.node):
-            if not (isinstance(node, ast.Attribute) and node.attr == qf):
-                continue
-            n += 1
-            par = parents.get(id(node))
-            gp = parents.get(id(par)) if par is not None else None
-            ok, why = False, "unrecognised use `%s`" % ast.unparse(par if par is not None else node)[:60]
-            in_queue_cls = f.cls is not None and S["FrameQueue"] in f.cls.mro
-            if isinstance(par, ast.Attribute) and isinstance(gp, ast.Call) and gp.func is par:
-                m = par.attr
-                if m == "append":
-                    ok = in_queue_cls and f.name in ("enqueue", "__init__")
-                    why = "append outside enqueue()/the move constructor" if not ok else ""
-                elif m == "pop":
-                    ok = in_queue_cls and f.name == "dequeue" and len(gp.args) == 1 and isinstance(gp.args[0], ast.Constant) and gp.args[0].value == 0
-                    why = "only dequeue() may remove, and only the head (pop(0))" if not ok else ""
-                else:
-                    why = "list method .%s() on the queue storage" % m
-            elif isinstance(par, ast.Subscript) and par.value is node:
-                ok = isinstance(par.ctx, ast.Load) and isinstance(par.slice, ast.Constant) and par.slice.value == 0 and in_queue_cls and f.name == "peek"
-                why = "only peek() may index the storage, and only the head [0], read-only" if not ok else ""
-            elif isinstance(par, ast.Call) and isinstance(par.func, ast.Name) and par.func.id in READERS:
-                ok = True
-            elif isinstance(par, (ast.For, ast.comprehension)) and par.iter is node:
-                ok = True
-            elif isinstance(par, (ast.UnaryOp, ast.IfExp, ast.If, ast.While, ast.BoolOp)):
-                ok = True  # truthiness
-            elif isinstance(par, (ast.Assign, ast.AnnAssign)) and (node in getattr(par, "targets", []) or getattr(par, "target", None) is node):
-                ok = in_queue_cls and f.name == "__init__"
-                why = "the storage list is re-bound outside the constructor" if not ok else ""
-            elif isinstance(par, ast.Compare):
-                ok = True
-            agg.add("R12.1", f, "use of the queue storage `%s` keeps FIFO discipline" % ast.unparse(par if par is not None else node)[:50], ok, why, node)
+    P = ck.prog
+    qcls = S["FrameQueue"]
+    api = {"enqueue", "dequeue", "__init__"}
+    muts = {}
+    for f in P.all_funcs():
+        sites = attr_mutations(f.node, qf)
+        if not sites:
+            continue
+        n += len(sites)
+        in_queue_cls = f.cls is not None and qcls in f.cls.mro
+        agg.add("R12.1", f, "the queue storage is changed only inside the queue classes", in_queue_cls,
+                "%s changes the storage list from outside (%s)" % (f.qualname, ", ".join(sorted({w for _n, w in sites}))), sites[0][0])
+        if in_queue_cls:
+            muts[f] = sites
+    agg.add("R12.1", (qcls.module.relpath, qcls.name), "the queue storage has mutators (anchor)", bool(muts), "no function changes `%s`" % qf)
+    # every other public method of the queue classes must not reach a mutator
+    for cls in (S["FrameQueue"], S["FrameQueueFrag"]):
+        for c in cls.mro:
+            for fi in class_funcs(c):
+                if fi.name in api or (fi.name.startswith("_") and not fi.name.startswith("__")):
+                    continue
+                n += 1
+                reach = {g for g, _r in reachable(P, fi, cls, stop=lambda g, r: g.name in api and g is not fi)}
+                bad = sorted({m.qualname for m in muts if (m in reach and m.name not in api) or m is fi})
+                agg.add("R12.1", fi, "only enqueue(), dequeue() and the constructors change the queue storage", not bad,
+                        "%s can change the storage through %s" % (fi.qualname, ", ".join(bad)))
     return n
 
 
@@ -268,7 +259,7 @@ def run(ck):
     n3 = deq_peek(ck, agg, qf)
     n4 = move_ctor(ck, agg, qf)
     agg.flush()
-    ck.floor("R12.1", "uses of the storage list", n1, 9)
+    ck.floor("R12.1", "mutation sites and public methods examined", n1, 5)
     ck.floor("R12.4", "enqueue scenarios on the capacity grid", n2, 16)
     ck.floor("R12.1", "dequeue/peek/len scenarios", n3, 8)
     ck.floor("R12.6", "move/switch scenarios", n4, 14)
